@@ -3,10 +3,11 @@
 Decided by: spec/Engine.tla - state machine of the engine's session caches (reset / pre-parse /
 worklist loop with parse + check / lowering worklist / trace / fail), with the invariants
 NoStaleRead, CachesOfThisEpoch, OutputIndependent, OutcomeIndependent, LoweredOnlyNow model-checked by
-TLC over all histories of public calls (check / compile_function / compile) on a pool of 14 entry
+TLC over all histories of public calls (check / compile_function / compile) on a pool of 16 entry
 points (plain function, callers, failing type error and its caller, good and failing comptime
 functions, a comptime expression that calls a Guppy function, recursive capturing closure, generic function used twice, monomorphised function used at
-two instantiations, struct with method, overloaded function, nested loops).
+two instantiations, struct with method, overloaded function, nested loops, a loop whose long-named variables share block rows
+with generated temporaries, and a comptime function that pushes the session's %tmp counter past 10 and 100).
 Binding (spec -> code): every history printed by TLC (exhaustive to length 2/3, simulated to length 12)
 is executed in one forked interpreter session (harness/eng_engine.py); after every call the outcome
 class and the projected engine state (ENGINE.parsed/checked/compiled key sets, worklists, DEF_STORE growth)
@@ -135,7 +136,8 @@ def run(ctx):
     sim = [json.loads(s) for s in uniq[:nsim]]
     ctx.log(f"TLC: {nexh} exhaustive histories ({cfg}), {len(sim)} simulated histories of length 12")
     # 3. references: each compile as the only call of a fresh interpreter process
-    ops = [("compile", d) for d in eng_pool.ENTRIES]
+    used = {st["d"] for h in hists + sim for st in h if st["op"] != "check"}
+    ops = [("compile", d) for d in eng_pool.ENTRIES if d in used]
     refs = references(ops, procs)
     single = {(h[0]["op"], h[0]["d"]): h[0] for h in hists + sim}
     for (op, d), ref in refs.items():
@@ -173,10 +175,10 @@ def run(ctx):
                 ">= 2 different definitions",
         "samples": [[E.label(st) for st in h] for h in (allh[len(allh) // 3], allh[-1])],
         "exhaustive": True,
-        "bounds": (f"all {nexh} histories of length 2 over 19 calls (9 core entry points x check/compile + compile() on 1)"
+        "bounds": (f"all {nexh} histories of length 2 over 14 calls (7 core entry points x check/compile)"
                    if ctx.quick else
-                   f"all {nexh} histories: length 3 over 16 core calls (8 entry points x check/compile) + length 2 over all 30 calls (14 entry points "
-                   f"x check/compile + compile() on 2)") + f"; plus {len(sim)} random histories of length 12 over all 30 "
+                   f"all {nexh} histories: length 3 over 16 core calls (8 entry points x check/compile) + length 2 over all 34 calls (16 entry points "
+                   f"x check/compile + compile() on 2)") + f"; plus {len(sim)} random histories of length 12 over all 34 "
                   f"calls (seed {ctx.seed + 1})",
         "hugr_comparisons_with_fresh_process_reference": ndigest,
         "successful_compiles_after_an_earlier_failure": after_fail,
